@@ -1,5 +1,6 @@
 """C10 - the Encoder accepts exactly protocol-respecting histories; errors are sticky.
 
+TLAPS: ProtocolProofs - ten theorems about the Protocol automaton for ALL call parameters (unbounded).
 MC  : MC_Encoder - product of the implementation-shaped Encoder model, a reset copy and the 3-state
       Protocol automaton over a 19-call alphabet to depth 8: Agree, Sticky, ZeroIsReset, ResetFresh.
 GEN : every history of length 3 (quick) / 4 (thorough) over the alphabet is printed by TLC with the
@@ -17,6 +18,9 @@ def run(ctx):
     quick = ctx.tier == "quick"
     ctx.build_harness()
     ctx.tlc_must_pass("MC_Encoder", "MC_Encoder", timeout=900)
+    # unbounded: the protocol automaton's facts (sticky failure, reset, legal calls never fail, illegal ones always do,
+    # every failure carries a reason) proved by TLAPS for all call parameters
+    ctx.tlapm_must_prove("ProtocolProofs")
     gen = os.path.join(ctx.tmp, "gen_enc.out")
     g = ctx.tlc("MC_Encoder", "GEN_Encoder_q" if quick else "GEN_Encoder_t", timeout=1800, out_file=gen)
     if g["error"] or not g["finished"]:
